@@ -29,6 +29,10 @@ type Authority struct {
 	SignCert *x509.Certificate
 	RootName string
 	SignName string
+	// Sibling is a second signing key certified by the same root (not primary).
+	SiblingName string
+	SiblingKey  *rsa.PrivateKey
+	SiblingCert *x509.Certificate
 }
 
 func name(cn string, serial int64) *pkix.Name {
@@ -37,12 +41,26 @@ func name(cn string, serial int64) *pkix.Name {
 
 // NewAuthority makes a root and one signing key, both valid from `now`.
 func NewAuthority(now time.Time, tag string) (*Authority, error) {
+	return newAuthority(now, tag, false)
+}
+
+// NewAuthorityWithSibling also certifies a second (non-primary) signing key under the same root.
+func NewAuthorityWithSibling(now time.Time, tag string) (*Authority, error) {
+	return newAuthority(now, tag, true)
+}
+
+func newAuthority(now time.Time, tag string, sibling bool) (*Authority, error) {
 	ca := memca.Create()
-	a := &Authority{CA: ca, RootName: tag + "-root", SignName: tag + "-sign"}
+	a := &Authority{CA: ca, RootName: tag + "-root", SignName: tag + "-sign", SiblingName: tag + "-sign2"}
+	var extra []nonprod.Key
+	if sibling {
+		extra = []nonprod.Key{{Info: nonprod.KeyInfo{KeyVersionName: a.SiblingName, PkixName: name(tag+" signer 2", 3)}}}
+	}
 	s, err := nonprod.MakeCustomSigner(context.Background(), &nonprod.Options{
 		Now: now, CA: ca, Random: rand.Reader,
 		Root:              nonprod.Key{Info: nonprod.KeyInfo{KeyVersionName: a.RootName, PkixName: name(tag+" root", 1)}},
 		PrimarySigningKey: nonprod.Key{Info: nonprod.KeyInfo{KeyVersionName: a.SignName, PkixName: name(tag+" signer", 2)}},
+		SigningKeys:       extra,
 	})
 	if err != nil {
 		return nil, err
@@ -50,6 +68,9 @@ func NewAuthority(now time.Time, tag string) (*Authority, error) {
 	a.Signer = s
 	a.RootKey, a.SignKey = s.Keys[a.RootName], s.Keys[a.SignName]
 	a.RootCert, a.SignCert = ca.Certs[a.RootName], ca.Certs[a.SignName]
+	if sibling {
+		a.SiblingKey, a.SiblingCert = s.Keys[a.SiblingName], ca.Certs[a.SiblingName]
+	}
 	return a, nil
 }
 
